@@ -11,7 +11,8 @@ package oauth2
 // These contracts are assumed at every call through the interface.
 
 //@ interface AuthorizeCodeStorage.CreateAuthorizeCodeSession
-//@   modifies code_exists, code_active, code_rid, code_client, code_req, stored, faults
+//@   modifies code_exists, code_active, code_rid, code_client, code_req, stored, faults, tx_escaped
+//@   ensures tx_escaped == old(tx_escaped) + escapes(ctx, err)
 //@   ensures err == nil ==> code_exists == upd(old(code_exists), code, true) && code_active == upd(old(code_active), code, true) && code_rid == upd(old(code_rid), code, request.GetID()) && code_client == upd(old(code_client), code, request.GetClient().GetID()) && code_req == upd(old(code_req), code, request) && stored == upd(old(stored), request, true) && faults == old(faults)
 //@   ensures err != nil ==> codes_unchanged() && stored == old(stored) && faults == old(faults) + 1
 
@@ -23,12 +24,14 @@ package oauth2
 //@   ensures err != nil && !eis(err, fosite.ErrInvalidatedAuthorizeCode) && !eis(err, fosite.ErrNotFound) ==> faults == old(faults) + 1
 
 //@ interface AuthorizeCodeStorage.InvalidateAuthorizeCodeSession
-//@   modifies code_active, faults
+//@   modifies code_active, faults, tx_escaped
+//@   ensures tx_escaped == old(tx_escaped) + escapes(ctx, err)
 //@   ensures err == nil ==> code_active == upd(old(code_active), code, false) && faults == old(faults)
 //@   ensures err != nil ==> code_active == old(code_active) && faults == old(faults) + 1
 
 //@ interface AccessTokenStorage.CreateAccessTokenSession
-//@   modifies acc_exists, acc_rid, acc_client, acc_req, stored, faults
+//@   modifies acc_exists, acc_rid, acc_client, acc_req, stored, faults, tx_escaped
+//@   ensures tx_escaped == old(tx_escaped) + escapes(ctx, err)
 //@   ensures err == nil ==> acc_exists == upd(old(acc_exists), signature, true) && acc_rid == upd(old(acc_rid), signature, request.GetID()) && acc_client == upd(old(acc_client), signature, request.GetClient().GetID()) && acc_req == upd(old(acc_req), signature, request) && stored == upd(old(stored), request, true) && faults == old(faults)
 //@   ensures err != nil ==> access_unchanged() && stored == old(stored) && faults == old(faults) + 1
 
@@ -39,12 +42,14 @@ package oauth2
 //@   ensures err != nil && !eis(err, fosite.ErrNotFound) ==> faults == old(faults) + 1
 
 //@ interface AccessTokenStorage.DeleteAccessTokenSession
-//@   modifies acc_exists, faults
+//@   modifies acc_exists, faults, tx_escaped
+//@   ensures tx_escaped == old(tx_escaped) + escapes(ctx, err)
 //@   ensures err == nil ==> acc_exists == upd(old(acc_exists), signature, false) && faults == old(faults)
 //@   ensures err != nil ==> acc_exists == old(acc_exists) && faults == old(faults) + 1
 
 //@ interface RefreshTokenStorage.CreateRefreshTokenSession
-//@   modifies ref_exists, ref_active, ref_rid, ref_client, ref_acc, ref_req, stored, faults
+//@   modifies ref_exists, ref_active, ref_rid, ref_client, ref_acc, ref_req, stored, faults, tx_escaped
+//@   ensures tx_escaped == old(tx_escaped) + escapes(ctx, err)
 //@   ensures err == nil ==> ref_exists == upd(old(ref_exists), signature, true) && ref_active == upd(old(ref_active), signature, true) && ref_rid == upd(old(ref_rid), signature, request.GetID()) && ref_client == upd(old(ref_client), signature, request.GetClient().GetID()) && ref_acc == upd(old(ref_acc), signature, accessSignature) && ref_req == upd(old(ref_req), signature, request) && stored == upd(old(stored), request, true) && faults == old(faults)
 //@   ensures err != nil ==> refresh_unchanged() && stored == old(stored) && faults == old(faults) + 1
 
@@ -56,25 +61,29 @@ package oauth2
 //@   ensures err != nil && !eis(err, fosite.ErrInactiveToken) && !eis(err, fosite.ErrNotFound) ==> faults == old(faults) + 1
 
 //@ interface RefreshTokenStorage.DeleteRefreshTokenSession
-//@   modifies ref_exists, faults
+//@   modifies ref_exists, faults, tx_escaped
+//@   ensures tx_escaped == old(tx_escaped) + escapes(ctx, err)
 //@   ensures err == nil ==> ref_exists == upd(old(ref_exists), signature, false) && faults == old(faults)
 //@   ensures err != nil ==> ref_exists == old(ref_exists) && faults == old(faults) + 1
 
 // Revocation by request id, as the interface documents it.
 //@ interface TokenRevocationStorage.RevokeAccessToken
-//@   modifies acc_exists, faults
+//@   modifies acc_exists, faults, tx_escaped
+//@   ensures tx_escaped == old(tx_escaped) + escapes(ctx, err)
 //@   ensures err == nil ==> (forall s string :: acc_exists[s] == (old(acc_exists[s]) && acc_rid[s] != requestID)) && faults == old(faults)
 //@   ensures err != nil && eis(err, fosite.ErrNotFound) ==> acc_exists == old(acc_exists) && (forall s string :: acc_exists[s] ==> acc_rid[s] != requestID) && faults == old(faults)
 //@   ensures err != nil && !eis(err, fosite.ErrNotFound) ==> acc_exists == old(acc_exists) && faults == old(faults) + 1
 
 //@ interface TokenRevocationStorage.RevokeRefreshToken
-//@   modifies ref_active, faults
+//@   modifies ref_active, faults, tx_escaped
+//@   ensures tx_escaped == old(tx_escaped) + escapes(ctx, err)
 //@   ensures err == nil ==> (forall s string :: ref_active[s] == (old(ref_active[s]) && !(ref_exists[s] && ref_rid[s] == requestID))) && faults == old(faults)
 //@   ensures err != nil && eis(err, fosite.ErrNotFound) ==> ref_active == old(ref_active) && (forall s string :: ref_exists[s] && ref_rid[s] == requestID ==> !ref_active[s]) && faults == old(faults)
 //@   ensures err != nil && !eis(err, fosite.ErrNotFound) ==> ref_active == old(ref_active) && faults == old(faults) + 1
 
 //@ interface RefreshTokenStorage.RotateRefreshToken
-//@   modifies ref_active, acc_exists, faults
+//@   modifies ref_active, acc_exists, faults, tx_escaped
+//@   ensures tx_escaped == old(tx_escaped) + escapes(ctx, err)
 //@   ensures err == nil ==> (forall s string :: ref_active[s] == (old(ref_active[s]) && !(ref_exists[s] && ref_rid[s] == requestID))) && (forall s string :: acc_exists[s] == (old(acc_exists[s]) && acc_rid[s] != requestID)) && faults == old(faults)
 //@   ensures err != nil ==> ref_active == old(ref_active) && acc_exists == old(acc_exists)
 //@   ensures err != nil && !eis(err, fosite.ErrSerializationFailure) && !eis(err, fosite.ErrNotFound) && !eis(err, fosite.ErrInactiveToken) ==> faults == old(faults) + 1
@@ -114,7 +123,7 @@ package oauth2
 //@   let used = old(code_exists[sig]) && !old(code_active[sig])
 //@   let rid  = old(code_rid[sig])
 //@   requires c != nil && request != nil && !stored[request]
-//@   modifies acc_exists, ref_active, faults, validated_n
+//@   modifies acc_exists, ref_active, faults, validated_n, tx_escaped
 //@   ensures [C06.lookup-then-validate] err == nil ==> validated_n[code] > old(validated_n[code])
 //@   ensures [C01.replay-refused] used ==> err != nil
 //@   ensures [C01.replay-error-class] used && c.CanHandleTokenEndpointRequest(ctx, request) && old(request.GetClient().GetGrantTypes()).Has("authorization_code") ==> ekind(err) == "invalid_grant" || ekind(err) == "server_error"
@@ -142,7 +151,8 @@ package oauth2
 //@   let sig  = old(c.AuthorizeCodeStrategy.AuthorizeCodeSignature(ctx, code))
 //@   let txl  = implements(c.CoreStorage, storage.Transactional)
 //@   requires c != nil && requester != nil && responder != nil && !stored[requester]
-//@   modifies code_active, acc_exists, acc_rid, acc_client, acc_req, ref_exists, ref_active, ref_rid, ref_client, ref_acc, ref_req, stored, faults, tx_open, tx_begun, tx_committed, tx_rolledback, tx_commit_calls, tx_rollback_calls, snap_code_active, snap_acc_exists, snap_ref_exists, snap_ref_active, snap_dev_live, dev_live, validated_n
+//@   modifies code_active, acc_exists, acc_rid, acc_client, acc_req, ref_exists, ref_active, ref_rid, ref_client, ref_acc, ref_req, stored, faults, tx_open, tx_begun, tx_committed, tx_rolledback, tx_commit_calls, tx_rollback_calls, snap_code_active, snap_acc_exists, snap_ref_exists, snap_ref_active, snap_dev_live, dev_live, validated_n, tx_escaped, tx_ctx
+//@   ensures [C18.writes-inside-tx] old(tx_open) == 0 ==> tx_escaped == old(tx_escaped)
 //@   ensures [C06.lookup-then-validate] err == nil ==> validated_n[code] > old(validated_n[code])
 //@   ensures [C01.redeem-needs-live-code] err == nil ==> old(code_exists[sig]) && old(code_active[sig])
 //@   ensures [C01.redeem-invalidates] err == nil ==> !code_active[sig]
@@ -173,10 +183,11 @@ package oauth2
 //@ func (*RefreshTokenGrantHandler).handleRefreshTokenEndpointStorageError
 //@   let txl = implements(c.TokenRevocationStorage, storage.Transactional)
 //@   requires c != nil
-//@   modifies tx_open, tx_rolledback, tx_rollback_calls, code_active, acc_exists, ref_exists, ref_active, dev_live, faults
+//@   modifies tx_open, tx_rolledback, tx_rollback_calls, code_active, acc_exists, ref_exists, ref_active, dev_live, faults, tx_escaped
 //@   ensures [C18.storage-error-nil-passes] storageErr == nil ==> err == nil && tables_unchanged() && tx_open == old(tx_open) && tx_rolledback == old(tx_rolledback) && tx_rollback_calls == old(tx_rollback_calls) && faults == old(faults)
 //@   ensures [C18.storage-error-refuses] storageErr != nil ==> err != nil
 //@   ensures [C18.faults-monotone] faults >= old(faults)
+//@   ensures [C18.writes-inside-tx] tx_escaped == old(tx_escaped) + ((storageErr != nil && txl && old(tx_open) > 0 && ctx != tx_ctx) ? 1 : 0)
 //@   ensures [C18.storage-error-rolls-back] storageErr != nil && txl ==> tx_rollback_calls == old(tx_rollback_calls) + 1
 //@   ensures [C18.storage-error-rolls-back] storageErr != nil && txl && faults == old(faults) ==> tables_restored() && tx_open == old(tx_open) - 1 && tx_rolledback == old(tx_rolledback) + 1
 //@   ensures [C18.storage-error-rolls-back] storageErr != nil && txl && faults != old(faults) ==> tables_unchanged() && tx_open == old(tx_open) && tx_rolledback == old(tx_rolledback)
@@ -189,7 +200,8 @@ package oauth2
 //@   let txl = implements(c.TokenRevocationStorage, storage.Transactional)
 //@   let rid = old(req.GetID())
 //@   requires c != nil && req != nil
-//@   modifies tx_open, tx_begun, tx_committed, tx_rolledback, tx_commit_calls, tx_rollback_calls, snap_code_active, snap_acc_exists, snap_ref_exists, snap_ref_active, snap_dev_live, dev_live, code_active, acc_exists, ref_exists, ref_active, faults
+//@   modifies tx_open, tx_begun, tx_committed, tx_rolledback, tx_commit_calls, tx_rollback_calls, snap_code_active, snap_acc_exists, snap_ref_exists, snap_ref_active, snap_dev_live, dev_live, code_active, acc_exists, ref_exists, ref_active, faults, tx_escaped, tx_ctx
+//@   ensures [C18.writes-inside-tx] old(tx_open) == 0 ==> tx_escaped == old(tx_escaped)
 //@   ensures [C04.reuse-kills-family] err == nil ==> !ref_exists[signature] && (forall s string :: old(acc_exists[s]) && acc_rid[s] == rid ==> !acc_exists[s]) && (forall s string :: ref_exists[s] && ref_rid[s] == rid ==> !ref_active[s])
 //@   ensures [C04.reuse-touches-only-family] (forall s string :: acc_rid[s] != rid ==> acc_exists[s] == old(acc_exists[s])) && (forall s string :: ref_rid[s] != rid && s != signature ==> ref_active[s] == old(ref_active[s]) && ref_exists[s] == old(ref_exists[s]))
 //@   ensures [C04.reuse-issues-nothing] code_active == old(code_active) && (forall s string :: acc_exists[s] ==> old(acc_exists[s])) && (forall s string :: ref_active[s] ==> old(ref_active[s])) && (forall s string :: ref_exists[s] ==> old(ref_exists[s]))
@@ -207,7 +219,8 @@ package oauth2
 //@   let orig = old(ref_req[sig])
 //@   let canhandle = c.CanHandleTokenEndpointRequest(ctx, request) && old(request.GetClient().GetGrantTypes()).Has("refresh_token")
 //@   requires c != nil && request != nil && !stored[request] && request.GetClient() != nil
-//@   modifies tx_open, tx_begun, tx_committed, tx_rolledback, tx_commit_calls, tx_rollback_calls, snap_code_active, snap_acc_exists, snap_ref_exists, snap_ref_active, snap_dev_live, dev_live, code_active, acc_exists, ref_exists, ref_active, faults, validated_n
+//@   modifies tx_open, tx_begun, tx_committed, tx_rolledback, tx_commit_calls, tx_rollback_calls, snap_code_active, snap_acc_exists, snap_ref_exists, snap_ref_active, snap_dev_live, dev_live, code_active, acc_exists, ref_exists, ref_active, faults, validated_n, tx_escaped, tx_ctx
+//@   ensures [C18.writes-inside-tx] old(tx_open) == 0 ==> tx_escaped == old(tx_escaped)
 //@   ensures [C06.lookup-then-validate] err == nil ==> validated_n[refresh] > old(validated_n[refresh])
 //@   ensures [C04.inactive-is-refused] reuse ==> err != nil
 //@   ensures [C04.reuse-error-class] reuse && canhandle ==> ekind(err) == "invalid_grant" || ekind(err) == "invalid_request" || ekind(err) == "server_error"
@@ -239,7 +252,8 @@ package oauth2
 //@   let asig = c.AccessTokenStrategy.AccessTokenSignature(ctx, responder.GetAccessToken())
 //@   let rsig = c.RefreshTokenStrategy.RefreshTokenSignature(ctx, unbox(responder.GetExtra("refresh_token"), string))
 //@   requires c != nil && requester != nil && responder != nil && !stored[requester]
-//@   modifies code_active, acc_exists, acc_rid, acc_client, acc_req, ref_exists, ref_active, ref_rid, ref_client, ref_acc, ref_req, stored, faults, tx_open, tx_begun, tx_committed, tx_rolledback, tx_commit_calls, tx_rollback_calls, snap_code_active, snap_acc_exists, snap_ref_exists, snap_ref_active, snap_dev_live, dev_live
+//@   modifies code_active, acc_exists, acc_rid, acc_client, acc_req, ref_exists, ref_active, ref_rid, ref_client, ref_acc, ref_req, stored, faults, tx_open, tx_begun, tx_committed, tx_rolledback, tx_commit_calls, tx_rollback_calls, snap_code_active, snap_acc_exists, snap_ref_exists, snap_ref_active, snap_dev_live, dev_live, tx_escaped, tx_ctx
+//@   ensures [C18.writes-inside-tx] old(tx_open) == 0 ==> tx_escaped == old(tx_escaped)
 //@   ensures [C04.rotate-then-create] err == nil ==> acc_exists[asig] && acc_rid[asig] == rid && ref_exists[rsig] && ref_active[rsig] && ref_rid[rsig] == rid && ref_acc[rsig] == asig
 //@   ensures [C04.only-new-pair-live] err == nil ==> (forall s string :: acc_exists[s] && acc_rid[s] == rid ==> s == asig) && (forall s string :: ref_exists[s] && ref_active[s] && ref_rid[s] == rid ==> s == rsig)
 //@   ensures [C04.presented-becomes-inactive] err == nil && old(ref_exists[sig]) && old(ref_rid[sig]) == rid && sig != rsig ==> !ref_active[sig]
@@ -328,7 +342,7 @@ package oauth2
 //@   let rid = hit_ref ? old(ref_rid[rsig]) : old(acc_rid[asig])
 //@   let owner = hit_ref ? old(ref_client[rsig]) : old(acc_client[asig])
 //@   requires r != nil && client != nil
-//@   modifies acc_exists, ref_active, faults
+//@   modifies acc_exists, ref_active, faults, tx_escaped
 //@   ensures [C08.owner-only] faults == old(faults) && (hit_ref || hit_acc) && owner != client.GetID() ==> err != nil && ekind(err) == "unauthorized_client" && acc_exists == old(acc_exists) && ref_active == old(ref_active)
 //@   ensures [C08.revokes-family] faults == old(faults) && (hit_ref || hit_acc) && owner == client.GetID() ==> err == nil && (forall s string :: acc_exists[s] ==> acc_rid[s] != rid) && (forall s string :: ref_exists[s] && ref_rid[s] == rid ==> !ref_active[s])
 //@   ensures [C08.revoke-touches-only-family] faults == old(faults) && (hit_ref || hit_acc) ==> (forall s string :: acc_rid[s] != rid ==> acc_exists[s] == old(acc_exists[s])) && (forall s string :: ref_rid[s] != rid ==> ref_active[s] == old(ref_active[s]))
